@@ -140,10 +140,19 @@ fn blk(ctx: &mut Ctx) {
                 ctx.st.count("cfb8.resync-observed");
             }
             // "garbles the following block-size bytes": while byte j sits in the register the
-            // keystream byte is first_byte(E(S)) of a *different* S; with at least 8 such bytes
-            // the chance that none of them changes is 2^-64 for a bijective E
+            // keystream byte is first_byte(E(S)) of a *different* S. That some visible byte changes
+            // is a statement about diffusion, which only a PRP-like cipher gives: for the real
+            // ciphers 8 such bytes are enough (2^-64); the toy cipher is a bijection with slow
+            // diffusion in large blocks, so for it the demand is made only when the altered byte is
+            // seen through its whole journey across the register (all b following bytes exist,
+            // including the steps where it sits next to the byte the mode reads).
             let hi = (j + cb + 1).min(n);
-            if hi - (j + 1) >= 8 && diff[j + 1..hi].iter().all(|&x| x == 0) {
+            let seen = hi - (j + 1);
+            let demand = seen >= 8 && (ctx.cfg.real || seen == cb);
+            if !demand && seen >= 8 {
+                ctx.st.count("cfb8.garble-not-demanded(toy cipher, partial view)");
+            }
+            if demand && diff[j + 1..hi].iter().all(|&x| x == 0) {
                 return fail(ctx, format!("none of the {} plaintext bytes after byte j changed: the altered ciphertext byte never entered the shift register", hi - j - 1));
             }
         }
@@ -281,12 +290,16 @@ fn cfb_bytes(ctx: &mut Ctx) {
     }
     let next_end = ((j + 2) * b).min(len);
     let next = &diff[(j + 1) * b..next_end];
-    // a whole block changes for sure (E is a bijection); a partial one of >= 8 bytes with
-    // probability 1 - 2^-64
-    if next.len() >= 8.min(b) && next.len() >= 8 || next.len() == b {
+    // a whole block changes for sure (E is a bijection: E(c) != E(c ^ delta)). A *partial* block shows
+    // only the leading bytes of E(c ^ delta): that they differ is a diffusion argument, valid (2^-64
+    // for >= 8 bytes) for the real ciphers only - the toy cipher diffuses slowly in large blocks and
+    // did produce equal 15-byte prefixes for a change at byte 251 of a 255-byte block (11.4 item 10).
+    if next.len() == b || (next.len() >= 8 && ctx.cfg.real) {
         if !next.is_empty() && is_zero(next) {
             return fail(ctx, "plaintext block j+1 did not change".into());
         }
+    } else if next.len() >= 8 {
+        ctx.st.count("cfb.partial-next-block-change-not-demanded(toy cipher)");
     }
     if next_end < len && !is_zero(&diff[next_end..]) {
         let i = next_end + diff[next_end..].iter().position(|&x| x != 0).unwrap();
